@@ -5,7 +5,7 @@ generated visitor actually restores, field by field, is read off the typed HIR o
 import re
 
 from .core import RuleResult
-from .facts import walk, strip, peel_refs, fn_key, fn_loc, split_top
+from .facts import walk, strip, peel_refs, fn_key, fn_loc, split_top, Render
 
 LEVEL = ("Static analysis of the workspace compiled with every crate's `serde` feature: (build) the configuration type-checks; "
          "(both) every type with a Serialize impl has a Deserialize impl and vice versa; (struct) in the expanded derive "
@@ -758,9 +758,45 @@ def make_regex_text_rule(rid, cfg):
     return rule
 
 
+def rule_borrowed(ctx):
+    """A hand-written Deserialize impl that reads `&'de str` (or `&'de [u8]`) can only be fed by a deserializer that hands
+    out slices of its *input*: from a reader (`from_reader`, `deserialize_from`) or from JSON text that needs unescaping
+    there is no such slice, and deserialisation fails with "invalid type: string .., expected a borrowed string" - for the
+    very value that was serialised a moment ago."""
+    res = RuleResult("R-C19-borrowed", "no hand-written Deserialize impl of the workspace reads a borrowed `&str` / `&[u8]` (restoring from a reader or from escaped text would fail)")
+    F = ctx.facts("serde")
+    if F is None:
+        return res.finish(0)
+    n = 0
+    for fn in F.all_fns():
+        d = fn["d"]
+        if fn.get("exp") or "tests" in d["path"]:
+            continue
+        tr = (d.get("trait") or "").split("<")[0].split("::")[-1]
+        if not ((d["name"] == "deserialize" and tr in ("Deserialize", "DeserializeSeed")) or (d["name"].startswith("visit_") and tr == "Visitor") or d["name"].startswith("deserialize")):
+            continue
+        c = fn["crate"]
+        n += 1
+        key = fn_key(fn)
+        res.instance(key)
+        bad = None
+        for y in walk(fn["body"]):
+            if y.get("k") in ("Call", "MethodCall"):
+                nm, dd = callee_name(c, y)
+                t = c.ty(y.get("t")) or ""
+                if nm == "deserialize" and re.match(r"^(std|core)::result::Result<&('\w+ )?(str|\[u8\])\b", t):
+                    bad = (y, t)
+        if bad:
+            res.violate("%s : reads-borrowed-str" % key, "`%s` deserialises a `%s`: only a deserializer holding the input as one borrowed buffer without escapes can provide it; `from_reader` / `deserialize_from` and JSON text with escapes fail" % (Render(c).e(bad[0])[:50], bad[1].split("Result<")[1].split(",")[0]), fn_loc(fn, bad[0].get("ln")))
+        else:
+            res.ok()
+    res.info.append("%d hand-written deserialisation functions" % n)
+    return res.finish(0)
+
+
 def rules(tier):
-    from . import carry, c04, serlayout
+    from . import carry, c04, serlayout, storederr
     return [rule_build, rule_both, rule_struct, rule_types, rule_guard, rule_witness, rule_regex, make_regex_text_rule("R-C19-regextext", "serde"),
-            serlayout.make_rule("R-C19-layout", 40),
+            serlayout.make_rule("R-C19-layout", 40), rule_borrowed, storederr.make_rule("R-C19-storederr", 2),
             carry.make_clone_rule("R-C19-clone", c04.ALL_CRATES, 40),
             carry.make_accessor_rule("R-C19-accessor", c04.ALL_CRATES, 80)]
